@@ -321,6 +321,38 @@ Definition atoms (t : token) : list atom :=
 Definition sigc (ts : list token) : list atom := flat_map atoms ts.
 
 (* ------------------------------------------------------------------ *)
+(* tokens/mod.rs, TokenStream::write_to: the text of a token stream.  [indent]
+   is what is written in front of the continuation lines of a multi-line
+   comment: one space per BYTE of every text token written on the line so far,
+   a tab for a Tab token; a comment itself does not advance it. *)
+Fixpoint write_lines (lines : list (list N)) (indent : list N) : list N :=
+  match lines with
+  | [] => []
+  | l :: rest => (10%N :: indent) ++ l ++ write_lines rest indent
+  end.
+
+Fixpoint write_loop (ts : list token) (indent out : list N) : list N :=
+  match ts with
+  | [] => out
+  | t :: ts' =>
+      match t with
+      | TNewline => write_loop ts' [] (out ++ [10%N])
+      | TTab => write_loop ts' (indent ++ [9%N]) (out ++ [9%N])
+      | TWhitespace => write_loop ts' (indent ++ [32%N]) (out ++ [32%N])
+      | TComment s | TIdentifier s | TKeyword s | TLiteral s | TLGrouping s | TRGrouping s | TPunctuation s =>
+          write_loop ts' (indent ++ repeat 32%N (length s)) (out ++ s)
+      | TBlockComment ls | THeadComment ls | TTailComment ls | TInlineComment ls =>
+          match ls with
+          | [] => write_loop ts' indent out
+          | first :: rest => write_loop ts' indent (out ++ first ++ write_lines rest indent)
+          end
+      | _ => write_loop ts' indent out
+      end
+  end.
+
+Definition write_to (ts : list token) : list N := write_loop ts [] [].
+
+(* ------------------------------------------------------------------ *)
 (* Formatter::format returns `in_buf.ne(out_buf.get_ref())`: byte inequality of
    what was read and what is written (that this is how the flag is computed is
    re-read from the source: Gen/FmtRules.v, modified_is_byte_inequality) *)
